@@ -183,7 +183,7 @@ def lis_passes(src):
         else:
             xunits = lp['dsbs'][0]['units']
         for d, (a, b) in zip(lp['dsbs'], pm.cols):
-            names.append(d['mnem'].decode('ascii').strip())
+            names.append(d['mnem'].replace(b'\x00', b' ').decode('ascii').strip())
             dtypes.append('float64')
             cols.append([[float(v) for v in pm.matrix[i, a:b].tolist()] for i in range(n)])
         x = [Fraction(pm.x[i]) if lp['indirect'] else Fraction(cols[0][i][0]) for i in range(n)]
@@ -244,11 +244,24 @@ def _bit_plain_names(model):
     return dict(model, passes=out)
 
 
+@st.composite
+def lis_sources(draw, max_frames):
+    m = draw(GL.lis_files(max_passes=2, max_frames=max_frames, allow_dipmeter=False, empty_passes=True))
+    if draw(st.integers(0, 3)) == 0:
+        # channel mnemonics shorter than four characters padded with NUL bytes instead of spaces (common in LIS files)
+        for kind, payload in m['items']:
+            if kind == 'pass':
+                for k, d in enumerate(payload['dsbs']):
+                    if (k or payload['indirect']) and d['mnem'].endswith(b' ') and d['mnem'].strip() and draw(st.booleans()):
+                        d['mnem'] = d['mnem'].rstrip(b' ').ljust(4, b'\x00')
+    return m
+
+
 def sources(fmt, max_frames):
     if fmt == 'RP66V1':
         return GT.tolas_files(max_files=2, max_frame_types=3, max_channels=5, max_frames=max_frames)
     if fmt == 'LIS':
-        return GL.lis_files(max_passes=2, max_frames=max_frames, allow_dipmeter=False, empty_passes=True)
+        return lis_sources(max_frames)
     return st.one_of(GB.bit_models(max_passes=3, max_channels=6, max_frames=max_frames, min_frames=1),
                      GB.bit_models(max_passes=3, max_channels=6, max_frames=max_frames, min_frames=3),
                      GB.bit_models(max_passes=2, max_channels=4, max_frames=max_frames, min_frames=6)).map(_bit_plain_names)
@@ -311,6 +324,12 @@ def channel_requests(draw, passes):
                 names.append(nm)
     if draw(st.integers(0, 5)) == 0:
         names.append(draw(st.sampled_from(('NOSUCH', 'ZZZZ', 'dept'))))
+    # what a user types for a four character source mnemonic: the name without its padding ('SP' for 'SP  ')
+    padded = [nm for p in passes for nm in p.get('raw_names', ())[1:] if nm.strip() != nm and nm.strip() and nm not in names]
+    if padded and draw(st.integers(0, 3)) == 0:
+        nm = draw(st.sampled_from(padded)).strip()
+        if nm not in names:
+            names.append(nm)
     if not names:
         names.append(draw(st.sampled_from(('NOSUCH', passes[0].get('raw_names', passes[0]['names'])[-1]))))
     return names
@@ -571,6 +590,12 @@ def check(case, cc):
     cc.cls('lis-empty-log-pass-before-data', fmt == 'LIS' and any(k == 'pass' and not pl['frames'] for k, pl in case['src']['items']))
     cc.cls('implied-x', fmt == 'LIS' and any(p['implied_x'] for p in passes))
     cc.cls('explicit-x', fmt == 'LIS' and any(not p['implied_x'] for p in passes))
+    cc.cls('lis-nul-padded-mnemonic', fmt == 'LIS' and any(k == 'pass' and any(b'\x00' in d['mnem'] for d in pl['dsbs']) for k, pl in case['src']['items']))
+    cc.cls('lis-nul-padded-mnemonic-requested', fmt == 'LIS' and bool(requested) and any(
+        k == 'pass' and any(b'\x00' in d['mnem'] and d['mnem'].replace(b'\x00', b' ').decode('ascii').strip() in requested for d in pl['dsbs'])
+        for k, pl in case['src']['items']))
+    cc.cls('request-names-channel-without-its-padding', bool(requested) and any(
+        r.strip() == r and any(nm_ != r and nm_.strip() == r for nm_ in p.get('raw_names', ())) for p in passes for r in requested))
     cc.cls('lis-optical-units', fmt == 'LIS' and any(p['factor'] != 1 for p in passes))
     cc.cls('logical-file-without-log-pass', bool(extra.get('extra')))
     cc.cls('vsingl-channel', fmt == 'RP66V1' and any(a is not None for p in passes for a in p['alts']))
@@ -683,7 +708,20 @@ def check_pass(case, cc, dev, desc, fmt, sel, p, requested, reduction, nm, s, te
     cols_idx = expected_columns(p, requested)
     want_names = [p['names'][k] for k in cols_idx]
     red = reduction if p['reduce'] else 'first'
+    if fmt == 'LIS':
+        # a mnemonic padded with NUL bytes in the source may keep them in the LAS file: names are compared without padding
+        unpad = lambda names: None if names is None else [nm_.replace('\x00', ' ').strip() for nm_ in names]  # noqa
+        s = dict(s, curves=unpad(s['curves']), heading=unpad(s['heading']))
     # ---- columns
+    raw_ = p.get('raw_names')
+    if raw_ and requested and s['curves'] != want_names:
+        # a request without the padding of the source name ('SP' for 'SP  '): whether that names the channel is not stated;
+        # either reading is accepted, but ~C, the ~A heading and the rows must agree on it
+        bare = {r.strip() for r in requested}
+        alt_idx = [k for k, nm_ in enumerate(raw_) if k == 0 or nm_ in requested or nm_.strip() in bare]
+        if alt_idx != cols_idx and s['curves'] == [p['names'][k] for k in alt_idx]:
+            cc.cls('request-without-padding-taken-as-the-channel')
+            cols_idx, want_names = alt_idx, [p['names'][k] for k in alt_idx]
     if s['curves'] != want_names:
         # the form of one known defect: the X axis names of the passes converted before are added to the request
         leaked = expected_columns(p, requested + earlier_x) if requested and fmt != 'LIS' else cols_idx
@@ -923,7 +961,7 @@ def check_readback(dev, where, nm, text, want_names, tok_rows, rows_ok):
     if fa is None:
         dev(O_READ, 'lasread:no-frame-array', '%s: LASRead gives no frame array' % where)
         return
-    got = [str(ch.ident).strip() for ch in fa.channels]
+    got = [str(ch.ident).replace('\x00', ' ').strip() for ch in fa.channels]
     if got != want_names:
         dev(O_READ, 'lasread:channels', '%s: LASRead channels %r, expected %r' % (where, got, want_names))
         return
